@@ -11,7 +11,7 @@ from leanfmt import lean_list, lean_str
 
 ID = "C08"
 LEAN_MODULES = ["EzdxfVerif.Props.C08"]
-DRIVER_DEPS = ["EzdxfVerif.Model.Readers", "EzdxfVerif.Model.ReadersWrite", "EzdxfVerif.Model.ReadersDetect", "EzdxfVerif.Model.ReadersLines", "EzdxfVerif.Model.ReadersRepair", "EzdxfVerif.Model.ReadersSniff", "EzdxfVerif.Model.ReadersRecVer", "EzdxfVerif.Model.ReadersFilter", "EzdxfVerif.Gen.ReaderTables", "Drivers.Proto"]
+DRIVER_DEPS = ["EzdxfVerif.Model.Readers", "EzdxfVerif.Model.ReadersWrite", "EzdxfVerif.Model.ReadersDetect", "EzdxfVerif.Model.ReadersLines", "EzdxfVerif.Model.ReadersRepair", "EzdxfVerif.Model.ReadersSniff", "EzdxfVerif.Model.ReadersRecVer", "EzdxfVerif.Model.ReadersFilter", "EzdxfVerif.Model.ReadersLoad", "EzdxfVerif.Gen.ReaderTables", "Drivers.Proto"]
 RULE = (
     "correspondence (real code vs Lean model, one line protocol driver): X1 2500/40000 generated ASCII tag streams "
     "(well-formed 60 %, else a structural fault: missing/duplicate/shuffled sections, dropped SECTION/ENDSEC/EOF/name tags, "
@@ -93,15 +93,20 @@ OPEN = [
     "readers_agree needs every modelspace entity to be truthy and single_pass with the ENDSEC fix: the proved statements for "
     "the other settings of the regenerated probes are single_pass_current and iter_agrees/index_agrees (truthy filter); "
     "counterexample theorems single_pass_loses_last_entity, falsy_entity_dropped, export_duplicates_subs",
-    "writers_wf is proved for Drawing.write (writers_wf, write_then_read_agree, state_write_read), the r12writer "
-    "(r12_structure) and the iterdxf exporter (export_structure) from LOCAL conditions on the records; that the entity "
-    "classes only export records satisfying DocOK is checked on real documents (X6), not proved (C01/C04 territory); r12export: "
+    "writers_wf and the composition with all five readers are proved from LOCAL conditions for every writer of the shape "
+    "fileOf pre es post (parts_read_agree; instances write_then_read_agree, export_read_agree, r12_read_agree, "
+    "r12export_read_agree). The entity part of DocOK is reduced to conditions on single attribute tags for the generic export "
+    "path (generic_record_ok, generic_linked_ok, gen_base_class_codes; tie X17: the three export parts of real entities); that "
+    "export_entity of every entity class only writes attribute tags (code != 0, <= 1071, != 999) is checked on real "
+    "entities (X6, X17), not proved per class (C01 territory); r12export: "
     "r12export_structure reduces it to the same writer model (gen_r12export_order), the records its converters emit are "
     "checked on real output (X12), not proved",
-    "the byte codecs of binary DXF and JSON (C03's theorem set plus json_roundtrip here) are not composed with the reader "
-    "theorems inside Lean; Binary DXF: scan_params is modelled (bin_scan_codepage for the value, findSub for the 1024-byte "
+    "JSON is composed with the reader theorems (json_read_agrees, write_then_read_agree_json: load_json_tags = Drawing.load "
+    "behind json_tag_loader, tie X16); the Binary DXF byte codec (C03's bin_file_roundtrip_all works on typed BTag values) is "
+    "not composed inside Lean: it needs the value typing of tag_compiler, which the tag-level model leaves abstract; Binary DXF: scan_params is modelled (bin_scan_codepage for the value, findSub for the 1024-byte "
     "window), the tag loop behind it is C03's",
-    "no reader handles a byte order mark (bom_differs); recover's version decision is modelled (recover_version_agrees) but "
+    "no reader handles a byte order mark (bom_differs); recover's version decision is modelled (recover_version_agrees, "
+    "recover_version_on_written_file) but "
     "not what follows from it inside recover (removal of CLASSES/OBJECTS for R12, table rebuild)",
     "text decoding with the decided encoding, and recover's automatic \\U+XXXX decoding (known finding F7, re-examined: "
     "decoding in the strict loader would change documented behaviour for every file that contains the literal text - no "
@@ -113,7 +118,7 @@ SRCS = [
     "src/ezdxf/lldxf/tags.py", "src/ezdxf/entities/subentity.py", "src/ezdxf/sections/entities.py", "src/ezdxf/recover.py",
     "src/ezdxf/lldxf/const.py", "src/ezdxf/lldxf/types.py", "src/ezdxf/lldxf/tagwriter.py", "src/ezdxf/addons/r12writer.py",
     "src/ezdxf/document.py", "src/ezdxf/entitydb.py", "src/ezdxf/filemanagement.py", "src/ezdxf/lldxf/validator.py",
-    "src/ezdxf/tools/codepage.py", "src/ezdxf/lldxf/repair.py", "src/ezdxf/addons/r12export.py",
+    "src/ezdxf/tools/codepage.py", "src/ezdxf/lldxf/repair.py", "src/ezdxf/addons/r12export.py", "src/ezdxf/entities/dxfentity.py",
 ]
 
 
@@ -348,6 +353,27 @@ def _probe_r12_iterables():
     return table
 
 
+def _probe_base_class_codes():
+    """the group codes DXFEntity.export_base_class writes for a plain entity with appdata, extension dictionary and
+    reactors (R2000+ branch) and for R12 with handles: the record head of the generic export path"""
+    import ezdxf
+    from ezdxf.lldxf.tagwriter import TagCollector
+
+    _quiet()
+    out = {}
+    for ver in ("R2000", "R12"):
+        doc = ezdxf.new(ver)
+        e = doc.modelspace().add_line((0, 0), (1, 1))
+        if ver == "R2000":
+            e.set_app_data("VERIF", [(1, "x")])
+            e.new_extension_dict()
+            e.set_reactors(["FF"])
+        c = TagCollector(dxfversion=doc.dxfversion, write_handles=True)
+        e.export_base_class(c)
+        out[ver] = [int(t.code) for t in c.tags]
+    return out["R2000"], out["R12"]
+
+
 def _r12export_order():
     """statement order of R12Exporter.to_string (the joined parts) and export_layouts_to_string, from the AST"""
     import ast
@@ -444,6 +470,7 @@ def regenerate(ctx):
     bin_full = _probe_bin_scan_full()
     r12x_order, r12x_layouts = _r12export_order()
     r12_iters = _probe_r12_iterables()
+    base_codes_2000, base_codes_r12 = _probe_base_class_codes()
     from ezdxf.lldxf import repair
 
     toolbox = [(k, list(v.keywords["codes"])) for k, v in repair.COORDINATE_FIXING_TOOLBOX.items()]
@@ -496,6 +523,11 @@ def coordinateFixing : List (String × List Nat) := {lean_list("(" + lean_str(k)
 /-- every add_* method of R12FastStreamWriter x every parameter annotated Iterable: number of iterations the method starts
     over the argument (probe object counting __iter__) -/
 def r12IterCounts : List (String × String × Nat) := {lean_list("(" + lean_str(a) + ", " + lean_str(b) + ", " + str(c) + ")" for a, b, c in r12_iters)}
+
+/-- group codes written by DXFEntity.export_base_class for an entity with app data, extension dictionary and reactors
+    (DXF R2000 branch) and for DXF R12 with handles (probe through a TagCollector) -/
+def baseClassCodes2000 : List Nat := {lean_list(str(c) for c in base_codes_2000)}
+def baseClassCodesR12 : List Nat := {lean_list(str(c) for c in base_codes_r12)}
 
 /-- addons/r12export.py R12Exporter.to_string: the joined parts in order (AST) -/
 def r12exportOrder : List String := {lean_list(lean_str(x) for x in r12x_order)}
@@ -940,6 +972,8 @@ def correspond(ctx):
     allcases += [("X13 fileindex locations", c) for c in correspond_locations(ctx)]
     allcases += [("X14 exporter bytes", c) for c in correspond_export_bytes(ctx, results)]
     allcases += [("X15 reader histories", c) for c in correspond_histories(ctx)]
+    allcases += [("X16 load_json_tags", c) for c in correspond_json_load(ctx, results)]
+    allcases += [("X17 generic records", c) for c in correspond_generic_records(ctx)]
     # one driver run for all streams
     outs = ctx.driver("C08", [c[0] for _, c in allcases], build=DRIVER_DEPS)
     for (stream, (req, impl, nontriv)), model in zip(allcases, outs):
@@ -1376,6 +1410,70 @@ def _history_case(args):
 
         out.append((rd, types, _run(run, fh)))
     return kind, tags, out
+
+
+def correspond_json_load(ctx, reader_results):
+    """X16 (final round): load_json_tags = Drawing.load behind json_tag_loader on the verbose [code, value] pairs of
+    generated streams vs jsonModelspace (the back end shared with ezdxf.read)"""
+    from ezdxf.addons import iterdxf
+    from ezdxf.document import load_json_tags
+
+    cases = []
+    sup = iterdxf.SUPPORTED_TYPES
+    for kind, tags, res in reader_results:
+        if len(cases) >= ctx.n(250, 4000):
+            break
+        if "hdr-" in kind or "comment" in kind and False:
+            continue
+        fh = {v for c, v in tags if c == 5 and len(v) >= 4}
+        impl = _run(lambda: [e for e in load_json_tags([[c, v] for c, v in tags]).modelspace() if e.dxftype() in sup], fh)
+        if impl.startswith("err:other:"):
+            ctx.hist("X16 load_json_tags", "outside-model:" + impl[10:])
+            continue
+        ctx.hist("X16 load_json_tags", kind.split("/")[0].split("+")[0])
+        cases.append((f"rd|json|-|-|{tags_line(tags)}", impl, impl != "ok "))
+    return cases
+
+
+def correspond_generic_records(ctx):
+    """X17 (final round): real entities of generated documents, their three export parts (export_base_class, export_entity,
+    export_xdata) written one by one, vs GenericRecord.group / genericOK / wEntOK of the model: the record IS the
+    concatenation behind the one structure tag, and the per-tag conditions hold for real attribute tags"""
+    import dxfparse
+    from ezdxf.lldxf.tagwriter import TagWriter
+
+    cases = []
+    for i in range(ctx.n(14, 140)):
+        rng = random.Random(f"{ctx.seed}/generic/{i}")
+        vname = list(VERSIONS)[i % 7]
+        ver = VERSIONS[vname]
+        try:
+            doc, made = build_document(rng, vname, rng.choice(list(CODEPAGES)), False)
+            settle_document(doc)
+        except Exception:  # noqa
+            continue
+        handles = bool(doc.header.get("$HANDLING", 0)) if ver == "AC1009" else True
+        msp, psp = doc.modelspace().layout_key, doc.active_layout().layout_key
+
+        def part(fn):
+            sio = io.StringIO()
+            fn(TagWriter(sio, write_handles=handles, dxfversion=ver))
+            return dxfparse.parse_ascii(sio.getvalue())
+
+        for e in list(doc.modelspace()) + list(doc.active_layout()):
+            if e.dxftype() in ("POLYLINE", "INSERT") or ver < e.MIN_DXF_VERSION_FOR_EXPORT:
+                continue
+            whole = part(e.export_dxf)
+            if not whole:
+                continue          # nothing written (LWPOLYLINE / MLINE without vertices)
+            base, body, xdata = part(e.export_base_class), part(e.export_entity), part(e.export_xdata)
+            if whole != base + body + xdata:
+                ctx.hist("X17 generic records", "other-path:" + e.dxftype())      # embedded objects etc.: not the generic path
+                continue
+            ctx.hist("X17 generic records", e.dxftype())
+            cases.append((f"gr|{msp}|{psp}|{esc(e.dxftype())}|{tags_line(base[1:])}|{tags_line(body)}|{tags_line(xdata)}",
+                          "1|1|" + tags_line(whole), True))
+    return cases
 
 
 def correspond_histories(ctx):
